@@ -1,0 +1,130 @@
+//go:build verif
+
+package sio
+
+import (
+	"reflect"
+	"time"
+
+	eio "github.com/karagenc/socket.io-go/engine.io"
+	eioparser "github.com/karagenc/socket.io-go/engine.io/parser"
+)
+
+// Exported wrappers for the verification harness (build tag `verif`).
+
+// ---- handler stores
+
+type VerifFunc func()
+
+type VerifHandlerStore struct{ s *handlerStore[*VerifFunc] }
+
+func VerifNewHandlerStore() *VerifHandlerStore {
+	return &VerifHandlerStore{s: newHandlerStore[*VerifFunc]()}
+}
+func (v *VerifHandlerStore) On(h *VerifFunc)          { v.s.on(h) }
+func (v *VerifHandlerStore) Once(h *VerifFunc)        { v.s.once(h) }
+func (v *VerifHandlerStore) OnSubEvent(h *VerifFunc)  { v.s.onSubEvent(h) }
+func (v *VerifHandlerStore) OffSubEvent(h *VerifFunc) { v.s.offSubEvent(h) }
+func (v *VerifHandlerStore) OffSubEvents()            { v.s.offSubEvents() }
+func (v *VerifHandlerStore) Off(h ...*VerifFunc)      { v.s.off(h...) }
+func (v *VerifHandlerStore) OffAll()                  { v.s.offAll() }
+func (v *VerifHandlerStore) GetAll() []*VerifFunc     { return v.s.getAll() }
+
+type VerifEventHandlerStore struct{ s *eventHandlerStore }
+
+func VerifNewEventHandlerStore() *VerifEventHandlerStore {
+	return &VerifEventHandlerStore{s: newEventHandlerStore()}
+}
+
+func (v *VerifEventHandlerStore) On(event string, f any) {
+	h, err := newEventHandler(f)
+	if err != nil {
+		panic(err)
+	}
+	v.s.on(event, h)
+}
+
+func (v *VerifEventHandlerStore) Once(event string, f any) {
+	h, err := newEventHandler(f)
+	if err != nil {
+		panic(err)
+	}
+	v.s.once(event, h)
+}
+
+// Off mirrors the public OffEvent methods: a non-nil (possibly empty) slice of reflect values.
+func (v *VerifEventHandlerStore) Off(event string, f ...any) {
+	values := make([]reflect.Value, len(f))
+	for i := range values {
+		values[i] = reflect.ValueOf(f[i])
+	}
+	v.s.off(event, values...)
+}
+func (v *VerifEventHandlerStore) OffAll() { v.s.offAll() }
+
+// GetAll returns the handlers' function values, in call order.
+func (v *VerifEventHandlerStore) GetAll(event string) []reflect.Value {
+	hs := v.s.getAll(event)
+	out := make([]reflect.Value, len(hs))
+	for i, h := range hs {
+		out[i] = h.rv
+	}
+	return out
+}
+
+// ---- packet queue
+
+type VerifPacketQueue struct{ q *packetQueue }
+
+func VerifNewPacketQueue() *VerifPacketQueue { return &VerifPacketQueue{q: newPacketQueue()} }
+func (v *VerifPacketQueue) Poll() (packets []*eioparser.Packet, ok, closed bool) {
+	return v.q.poll()
+}
+func (v *VerifPacketQueue) Add(packets ...*eioparser.Packet)  { v.q.add(packets...) }
+func (v *VerifPacketQueue) Reset()                            { v.q.reset() }
+func (v *VerifPacketQueue) Close()                            { v.q.close() }
+func (v *VerifPacketQueue) WaitForDrain(d time.Duration) bool { return v.q.waitForDrain(d) }
+func (v *VerifPacketQueue) PollAndSend(socket eio.Socket)     { v.q.pollAndSend(socket) }
+func (v *VerifPacketQueue) Len() int {
+	v.q.mu.Lock()
+	defer v.q.mu.Unlock()
+	return len(v.q.packets)
+}
+
+// ---- back-off calculator
+
+type VerifBackoff struct{ b *backoff }
+
+func VerifNewBackoff(min, max time.Duration, jitter float32) *VerifBackoff {
+	return &VerifBackoff{b: newBackoff(min, max, jitter)}
+}
+func (v *VerifBackoff) SetAttempts(n uint32) {
+	v.b.numAttemptsMu.Lock()
+	v.b.numAttempts = n
+	v.b.numAttemptsMu.Unlock()
+}
+func (v *VerifBackoff) Attempts() uint32        { return v.b.attempts() }
+func (v *VerifBackoff) Duration() time.Duration { return v.b.duration() }
+func (v *VerifBackoff) Reset()                  { v.b.reset() }
+
+// ---- ack handler
+
+type VerifAckHandler struct{ h *ackHandler }
+
+func VerifNewAckHandler(f any, hasError bool) (*VerifAckHandler, error) {
+	h, err := newAckHandler(f, hasError)
+	if err != nil {
+		return nil, err
+	}
+	return &VerifAckHandler{h: h}, nil
+}
+
+func VerifNewAckHandlerWithTimeout(f any, timeout time.Duration, timeoutFunc func()) (*VerifAckHandler, error) {
+	h, err := newAckHandlerWithTimeout(f, timeout, timeoutFunc)
+	if err != nil {
+		return nil, err
+	}
+	return &VerifAckHandler{h: h}, nil
+}
+
+func (v *VerifAckHandler) Call(args ...reflect.Value) error { return v.h.call(args...) }
